@@ -241,6 +241,9 @@ func c16Drivers() []*icCfg {
 			Scripts: [][]icOp{{S2(1)}, {{Kind: "tick", Arg: 2 * sec}}, {S(1)}}, Post: post},
 		{Name: "V5c-same-key-reset-after-expiry", O: hOpts{MaxSize: 4, ChanSize: 4, BufSize: 2}, Pre: []icOp{{Kind: "set", K: 1, Cost: 1, TTL: sec}},
 			Scripts: [][]icOp{{S2(1)}, {{Kind: "tick", Arg: 2 * sec}}, {S(1)}}, Post: post},
+		// "after writes have drained" reached through a Wait that ran concurrently with other clients' writes and deletes (its
+		// marker in the middle, at the start or at the end of a batch of 4): the views must be exact after the final drain
+		{Name: "V7-concurrent-wait", O: hOpts{MaxSize: 2, ChanSize: 4, BufSize: 4}, Pre: []icOp{S(1)}, Scripts: [][]icOp{{{Kind: "wait"}, S(4)}, {S2(2), D(1)}, {S(3)}}, Post: post},
 		{Name: "V3-loading", O: big, Loading: true, LoadCost: 1, Pre: []icOp{S(1)}, Scripts: [][]icOp{{L(1), L(2)}, {L(2), G(1)}, {D(1), L(1)}}, Post: post},
 	}
 }
